@@ -2097,7 +2097,8 @@ pub fn c12(tier: &str, flavor: Flavor) -> Spec {
                     threads[0].insert(0, ins(2, 1, 0));
                     threads[0].insert(0, ins(1, 1, 0));
                 }
-                let small = setup.is_empty() && !buffered && sh.len() == 2 && sh.iter().all(|t| t.len() <= 2) && sh[0].len() == 1 && !waits;
+                // (quick tier, bound 2: two single calls, or one call against two that do not start with a second close)
+                let small = setup.is_empty() && !buffered && sh.len() == 2 && sh.iter().all(|t| t.len() <= 2) && sh[0].len() == 1 && !waits && !(sh[1].len() == 2 && sh[1][0] == Op::Close);
                 let b: &[usize] = if sh.len() > 2 {
                     if quick { &[0] } else { &[1] }
                 } else if quick {
